@@ -7,12 +7,14 @@ EXTENDS Naturals, Sequences, TLC, Json, IOUtils
 
 C == INSTANCE WireClient
 S == INSTANCE WireServer
+N == INSTANCE WireNla
 
 Blobs == ndJsonDeserialize(IOEnv.BLOBS)
 
 DecodeOne(x) ==
   IF x.side = "c" THEN C!DecClient(x.b)
   ELSE IF x.side = "s" THEN S!DecServer(x.b)
+  ELSE IF x.side \in {"d", "e"} THEN N!DecTsRequest(x.b)      \* CredSSP TSRequest (client / server)
   ELSE [ok |-> TRUE, kind |-> "raw"]
 
 VARIABLE done
